@@ -6,7 +6,7 @@ SPEC = dict(
     drivers=["qxdriver_c03"],
     harnesses=[dict(name="framing", asan=False, driver="qxdriver_c03")],
     exhaustive=True,
-    rule="corpus of 43 streams (8 header shapes with/without XML declaration, incl. '>' in header attribute values and line breaks in the declaration; 18 stanza shapes: ASCII, 2-/3-/4-byte characters in "
+    rule="corpus of 44 streams (9 header shapes with/without XML declaration, incl. '>' in header attribute values and line breaks in the declaration; 18 stanza shapes: ASCII, 2-/3-/4-byte characters in "
          "text and attributes, the 5 entities and numeric references, '>' and '/>' inside attribute values, nested namespaces, "
          "white-space keep-alives between stanzas, several stanzas per read, with/without stream close) x partitions of the BYTE "
          "sequence: every 2-way split of every stream (exhaustive; S streams_with_all_2_splits), one byte at a time, seeded random "
@@ -42,9 +42,14 @@ SPEC = dict(
                "lists; full byte-level property for the code as it is (framing_bytes_split_independent: every split, including "
                "inside multi-byte characters and inside a leading BOM, delivers exactly the stream's events). The four defects found "
                "earlier (split inside a character, U+FEFF at read start, '>' in a header attribute, line break in the XML declaration) "
-               "are fixed in the repo (49994ec, 381fe43); their witnesses stay first in the corpus.",
-    level_note="Proved about the hand-written model with the DOM parser abstracted by a measured hypothesis; model-to-code tie is "
-               "differential (exhaustive 2-splits of a 43-stream corpus, sampled beyond). The decoder is modelled by the ideal "
+               "are fixed in the repo (49994ec, 381fe43); their witnesses stay first in the corpus. Header matcher: stable under "
+               "appended data, matches exactly one quote-aware open tag (theorems). Lean parser: completeness at item boundaries "
+               "proved for a sub-language (leanParser_complete_at_boundary_partial).",
+    level_note="PrefixOracle stays a hypothesis of the framing theorems: for the Lean parser only its first half is proved (sub-language, "
+               "no entities/double quotes/'>' in attribute values), the rejection half and the assembly are not; it is established per corpus "
+               "stream by the proved-sound checkOracle (Lean parser) and measured on QDomDocument (S prefix_oracle_checks, 0 violations). "
+               "Proved about the hand-written model with the DOM parser abstracted by a measured hypothesis; model-to-code tie is "
+               "differential (exhaustive 2-splits of a 44-stream corpus, sampled beyond). The decoder is modelled by the ideal "
                "incremental UTF-8 decoder: Qt 5's QTextDecoder coincides with it on well-formed UTF-8 (what the property quantifies "
                "over: 'any valid XMPP stream') but is not chunk independent on MALFORMED input; a BOM is dropped only as the very first "
                "character of the stream (standard XML behaviour), a U+FEFF anywhere later survives every split (measured).",
